@@ -5,6 +5,7 @@
 (* declarative operators of Compare.tla at real constants.                 *)
 (***************************************************************************)
 EXTENDS Compare, Word32, TraceBase
+T == INSTANCE Text WITH CAP1 <- 64, CAP2S <- 32, CAP2L <- 64
 VARIABLES l, tg, pa
 vars == <<l, tg, pa>>
 Ev(k) == l <= NRec /\ Rec[l].ev = k
@@ -96,7 +97,10 @@ EvBsValid == /\ Ev("bsvalid")        \* the complete set {x \in u32 : is_valid(x
              /\ Stateless
 EvBsLog == /\ Ev("bslog")            \* n in 0..255
            /\ Expect(/\ E.valid = (E.n < NUMBS)
-                     /\ IF E.n < NUMBS THEN E.from = BS(E.n) /\ E.back = E.n /\ E.isvalid = TRUE
+                     /\ IF E.n < NUMBS THEN /\ E.from = BS(E.n) /\ E.back = E.n /\ E.isvalid = TRUE
+                                             (* canonical decimal form, and back *)
+                                             /\ E.txt = T!BlockSizeText[E.n] \o <<58, 58>>
+                                             /\ E.parsed = E.n /\ E.acc = BS(E.n)
                         ELSE E.from = <<-1, -1>>, <<l, "bslog", E.n>>)
            /\ Stateless
 EvBsRel == /\ Ev("bsrel")            \* all 31 x 31 pairs
